@@ -12,6 +12,9 @@ mod simdisk;
 
 mod p01;
 mod p02;
+mod p03;
+mod p09;
+mod items;
 mod p11;
 mod rsim;
 mod p13;
@@ -29,6 +32,14 @@ macro_rules! families {
             }
             "C02" => {
                 type $f = p02::C02;
+                $body
+            }
+            "C03" => {
+                type $f = p03::C03;
+                $body
+            }
+            "C09" => {
+                type $f = p09::C09;
                 $body
             }
             "C11" => {
